@@ -25,8 +25,21 @@ def _worker(args):
     mod = importlib.import_module(modname)
     try:
         return mod.run_shard(shard)
-    except BaseException as exc:  # harness crash: report, never hide
+    except BaseException as exc:  # crash: report, never hide
+        from mc.common import repo_path
+
         acc = Acc()
+        tb = traceback.extract_tb(exc.__traceback__)
+        inner = tb[-1].filename if tb else ""
+        in_impl = inner.startswith(repo_path().rstrip("/") + "/") and not type(exc).__name__ == "HarnessError"
+        if in_impl:
+            # an exception raised by the code under test escaped through the harness: the
+            # property cannot have held on that execution
+            acc.violation(
+                f"implementation-raised-{type(exc).__name__}",
+                f"{type(exc).__name__}: {exc} raised at {inner}:{tb[-1].lineno} while running shard {repr(shard)[:300]}",
+                {"shard": repr(shard)[:2000], "traceback": traceback.format_exc()[-1500:]},
+            )
         acc.cap(f"shard crashed: {type(exc).__name__}: {exc}")
         acc.notes.append(traceback.format_exc()[-1500:])
         return acc.as_dict()
